@@ -101,7 +101,7 @@ def ob_set_htr(h):
 
 # ---- collections (bounded) ---------------------------------------------------------------
 
-NAMES = ("a", "b", "a_1")
+NAMES = ("a", "b", "a_1", "a_2")
 
 
 def _mk_stream(h, i, name):
@@ -230,12 +230,12 @@ def obligations():
     fs_coll = [StreamCollection.add, StreamCollection.add_many, StreamCollection.remove, StreamCollection.__add__, StreamCollection.__iter__,
                StreamCollection._ensure_sorted, StreamCollection.__len__, StreamCollection.set_sort_key]
     obs.append(Obligation("C19.coll.ops.b", _coll_ops(3), kind="bounded", bound="every sequence of 3 operations from {add, remove, +, iterate} "
-                          "over key alphabet {a, b, a_1}; sort keys symbolic", functions=fs_coll, max_paths=60000,
+                          "over key alphabet {a, b, a_1, a_2}; sort keys symbolic", functions=fs_coll, max_paths=60000,
                           doc="no member lost or replaced, len() = members held, iteration = members in sort-key order"))
     obs.append(Obligation("C19.coll.many.b", _coll_ops(2, ("add_many", "set_key", "remove")), kind="bounded", bound="every sequence of 2 operations from {add_many (2 members), "
-                          "set_sort_key, remove}; key alphabet {a, b, a_1}", functions=fs_coll, max_paths=60000))
+                          "set_sort_key, remove}; key alphabet {a, b, a_1, a_2}", functions=fs_coll, max_paths=60000))
     obs.append(Obligation("C19.coll.overwrite.b", _coll_ops(4, ("add", "iterate", "overwrite")), kind="bounded", bound="every sequence of 4 operations from {add, iterate, "
-                          "add(prevent_overwrite=False) onto an existing key}; key alphabet {a, b, a_1}", functions=fs_coll, max_paths=200000))
+                          "add(prevent_overwrite=False) onto an existing key}; key alphabet {a, b, a_1, a_2}", functions=fs_coll, max_paths=200000))
     obs.append(Obligation("C19.coll.ops4.b", _coll_ops(4), kind="bounded", tier="thorough", bound="as C19.coll.ops.b with 4 operations", functions=fs_coll, max_paths=2000000))
     obs.append(Obligation("C19.coll.replace.b", ob_replace, kind="bounded", bound="1..3 members, names from {a, b, a_1}", functions=[StreamCollection.replace]))
     obs.append(Obligation("C19.coll.cache.b", ob_stale_cache, kind="bounded", bound="2 members, one key reassigned after an iteration",
